@@ -69,3 +69,24 @@ func YieldLock() {
 	}
 	Yield()
 }
+
+// held, when set by a simulation harness, is told about every mutex acquisition (+1) and
+// release (-1) made by instrumented code, so that the harness knows whether the goroutine at
+// a yield point holds one of the repository's locks.
+var held atomic.Pointer[func(delta int)]
+
+// SetHeld installs (or, with nil, removes) the lock-depth function.
+func SetHeld(f func(delta int)) {
+	if f == nil {
+		held.Store(nil)
+		return
+	}
+	held.Store(&f)
+}
+
+// Held is inserted after Lock/RLock and before Unlock/RUnlock calls in instrumented copies.
+func Held(delta int) {
+	if f := held.Load(); f != nil {
+		(*f)(delta)
+	}
+}
